@@ -179,7 +179,7 @@ func scCookie(r *Run) {
 			continue
 		}
 		ackKey, ackFrom := kp, from
-		variant := r.Intn("ack", 8)
+		variant := r.Intn("ack", 9)
 		name := certs.DNSName("server.sim")
 		what := "control: same key, same address"
 		switch variant {
@@ -205,6 +205,21 @@ func scCookie(r *Run) {
 		case 7:
 			what = "cookie bytes altered"
 			cookie[r.Intn("ack", len(cookie))] ^= byte(1 + r.Intn("ack", 255))
+		case 8:
+			// a key that differs from the one the cookie was minted for in a few bytes only (front, middle, or
+			// the trailing seed of the encoding); the sender knows the shared secret and recomputes everything
+			what = "client KEM key differing in a few bytes"
+			pb, err := kp.Public.MarshalBinary()
+			if err != nil || len(pb) != kemKeyLen {
+				continue
+			}
+			off := []int{r.Intn("ack", 32), 32 + r.Intn("ack", kemKeyLen-64), kemKeyLen - 1 - r.Intn("ack", 32)}[r.Intn("ack", 3)]
+			pb[off] ^= byte(1 << uint(r.Intn("ack", 8)))
+			np, err := keys.ParseKEMPublicKeyFromBytes(pb)
+			if err != nil {
+				continue
+			}
+			ackKey = &keys.KEMKeyPair{Public: *np, Private: kp.Private, Seed: kp.Seed}
 		}
 		ca, err := transport.VerifAdvClientAck(ackKey, k, cookie, name)
 		if err != nil {
